@@ -63,6 +63,7 @@ type SpyMetastore struct {
 	NoYield bool
 	// Mute: calls are served without logging, yielding or faults (used by oracles that read the store).
 	Mute bool
+	objs map[string]*vsched.Obj // one scheduling identity per key id: calls on different ids commute
 }
 
 func NewSpyMetastore() *SpyMetastore {
@@ -116,14 +117,22 @@ func (m *SpyMetastore) fault(op string, kinds int) int {
 	return vsched.Choose(kinds, "ms."+op)
 }
 
-func (m *SpyMetastore) yield(op string) {
+func (m *SpyMetastore) yield(op, id string) {
 	if !m.NoYield && !m.Mute {
-		vsched.Yield("ms." + op)
+		if m.objs == nil {
+			m.objs = map[string]*vsched.Obj{}
+		}
+		o := m.objs[id]
+		if o == nil {
+			o = &vsched.Obj{}
+			m.objs[id] = o
+		}
+		vsched.Point(&vsched.Op{Kind: "ms." + op, Obj: o, Ext: true})
 	}
 }
 
 func (m *SpyMetastore) Load(_ context.Context, id string, created int64) (*ae.EnvelopeKeyRecord, error) {
-	m.yield("Load")
+	m.yield("Load", id)
 	if m.fault("Load", 2) != FaultNone {
 		m.log("Load", id, created, "error")
 		return nil, ErrInjected
@@ -150,7 +159,7 @@ func (m *SpyMetastore) Latest(id string) *Row {
 }
 
 func (m *SpyMetastore) LoadLatest(_ context.Context, id string) (*ae.EnvelopeKeyRecord, error) {
-	m.yield("LoadLatest")
+	m.yield("LoadLatest", id)
 	if m.fault("LoadLatest", 2) != FaultNone {
 		m.log("LoadLatest", id, 0, "error")
 		return nil, ErrInjected
@@ -166,7 +175,7 @@ func (m *SpyMetastore) LoadLatest(_ context.Context, id string) (*ae.EnvelopeKey
 }
 
 func (m *SpyMetastore) Store(_ context.Context, id string, created int64, rec *ae.EnvelopeKeyRecord) (bool, error) {
-	m.yield("Store")
+	m.yield("Store", id)
 	f := m.fault("Store", 4)
 	switch f {
 	case FaultError:
